@@ -373,6 +373,71 @@ def run_sig(out, drv, rng, sig, fname, ck, flavour):
                 out.violation(f"illtyped-body-ran:{flavour}:{mode}", f"a call whose arguments violate the annotations ({mode}) ran the body {len(rec_g.calls)} times and ended as {b}", r2)
 
 
+def call_shape_cases(out, ck):
+    """the wrapped callable is called with the caller's own argument list: what was passed by keyword arrives by keyword,
+    what was omitted is omitted (its default is the callee's business: it may have changed, the callee may be another
+    wrapper such as jax.jit / vmap for which positions and omissions mean something), and a callable's name need not be
+    a valid identifier"""
+    import functools
+
+    tc = CHECKERS[ck]
+    seen = []
+
+    def real(x: A, scale: A = DEF, *, flag: A = DEF) -> A:
+        return RES
+
+    @functools.wraps(real)
+    def recording(*args, **kwargs):
+        seen.append((tuple(id(a) for a in args), {k: id(v) for k, v in kwargs.items()}))
+        return real(*args, **kwargs)
+
+    g = jaxtyped(typechecker=tc)(recording)
+    x, y, z = Duck((3,), "float32"), Duck((3,), "float32"), Duck((3,), "float32")
+    for args, kwargs in (((x,), {}), ((x, y), {}), ((x,), {"scale": y}), ((), {"x": x}), ((), {"scale": y, "x": x, "flag": z}), ((x,), {"flag": z})):
+        seen.clear()
+        recording(*args, **kwargs)
+        want = list(seen)
+        seen.clear()
+        try:
+            g(*args, **kwargs)
+        except BaseException as e:  # noqa: BLE001
+            out.violation(f"call-shape:{type(e).__name__}", f"a well-typed call of a decorated functools.wraps wrapper raised {e!r}", {"call_shape": [len(args), sorted(kwargs)], "checker": ck})
+            continue
+        out.case(("call-shape", ck, len(args), tuple(sorted(kwargs))), True, sample={"positional": len(args), "keywords": sorted(kwargs)})
+        if seen != want:
+            out.violation("call-shape", f"called with {len(args)} positional and keywords {sorted(kwargs)}, the wrapped callable received {[(len(a), sorted(k)) for a, k in seen]} "
+                          f"instead of {[(len(a), sorted(k)) for a, k in want]} (same objects: {seen == want})", {"call_shape": [len(args), sorted(kwargs)], "checker": ck})
+    # a default rebound after decoration
+    def later(x: A, y: A = DEF) -> A:
+        return y
+
+    h = jaxtyped(typechecker=tc)(later)
+    new_default = Duck((3,), "float32")
+    later.__defaults__ = (new_default,)
+    out.case(("call-shape", ck, "rebound-default"), True)
+    try:
+        r1, r2 = later(x), h(x)
+        if r2 is not r1:
+            out.violation("call-shape:rebound-default", "after `fn.__defaults__` was rebound the original uses the new default, the decorated function the old one", {"call_shape": "rebound-default", "checker": ck})
+    except BaseException as e:  # noqa: BLE001
+        out.violation(f"call-shape:rebound-default:{type(e).__name__}", f"raised {e!r}", {"call_shape": "rebound-default", "checker": ck})
+    # callables whose __name__ is not something `def` could be followed by (generated operator tables, RPC stubs, partials)
+    if ck == "typeguard":   # beartype itself refuses such names
+        for nm in ("and", "lambda", "None", "class", "in", "my-func", "2fast", "<stub>"):
+            def stub(x: A) -> A:
+                return RES
+            stub.__name__ = nm
+            stub.__qualname__ = nm
+            out.case(("call-shape", ck, "name", nm), True, sample={"name": nm})
+            try:
+                gg = jaxtyped(typechecker=tc)(stub)
+                r = gg(x)
+                if r is not RES:
+                    out.violation(f"odd-name:{nm}", f"a callable named {nm!r} returns something else when decorated", {"call_shape": "name:" + nm, "checker": ck})
+            except BaseException as e:  # noqa: BLE001
+                out.violation(f"odd-name:{type(e).__name__}", f"decorating / calling a callable whose __name__ is {nm!r} raised {e!r}", {"call_shape": "name:" + nm, "checker": ck})
+
+
 def descriptor_cases(out, ck):
     tc = CHECKERS[ck]
     deco = jaxtyped(typechecker=tc)
@@ -444,6 +509,7 @@ def run(tier, seed, out, drv, facts):
     n = 30000 if thorough else 250
     for ck in CHECKERS:
         descriptor_cases(out, ck)
+        call_shape_cases(out, ck)
     for i in range(n):
         sig = gen_sig(rng)
         fname = rng.choice(["fn", "fn", "T0", "ret0", "default0", sig[0]["name"]])
@@ -460,3 +526,4 @@ def replay(rep, out, drv, facts):
     else:
         for ck in CHECKERS:
             descriptor_cases(out, ck)
+            call_shape_cases(out, ck)
